@@ -22,6 +22,7 @@ import (
 	"os/exec"
 	"sort"
 	"strings"
+	"sync"
 	"sync/atomic"
 	"time"
 
@@ -216,6 +217,38 @@ type harness struct {
 	schema *graphql.Schema
 	budget time.Duration
 	table  []string
+
+	// watchdog for the in-process cases (the work families run in child processes)
+	mu      sync.Mutex
+	current *Case
+	started time.Time
+}
+
+func (h *harness) watch(limit time.Duration) {
+	for {
+		time.Sleep(500 * time.Millisecond)
+		h.mu.Lock()
+		c, t0 := h.current, h.started
+		h.mu.Unlock()
+		if c != nil && time.Since(t0) > limit {
+			h.run.Oblige("oracle: in-process parse/validate returns (no hang)", "oracle", 1, false, "hang")
+			h.run.Violate("crash", fmt.Sprintf("hang: %s %s n=%d did not return within %v", c.Kind, c.Family, c.N, limit), "", false, *c)
+			h.run.Finish(nil)
+			os.Exit(0)
+		}
+	}
+}
+
+func (h *harness) begin(c Case) {
+	h.mu.Lock()
+	h.current, h.started = &c, time.Now()
+	h.mu.Unlock()
+}
+
+func (h *harness) end() {
+	h.mu.Lock()
+	h.current = nil
+	h.mu.Unlock()
 }
 
 // modelDoc asks the model about a text: outcome string "(ret (errs))" | "(rec (errs))", pdepth, walk.
@@ -287,7 +320,9 @@ func realParseObs(src string) (obs string, depth bool, panicked string) {
 func (h *harness) parserCase(c Case, flat bool) {
 	run := h.run
 	src, _ := sourceOf(c)
+	h.begin(c)
 	obs, depth, panicked := realParseObs(src)
+	h.end()
 	key, _ := json.Marshal(c)
 	run.Case(string(key), c.N >= 100)
 	run.Count("parser:" + c.Kind)
@@ -566,6 +601,7 @@ func main() {
 		mr = 1000
 	}
 	h.maxRec = mr
+	go h.watch(60 * time.Second)
 	if run.ModelPath != "" {
 		m, err := hx.StartModel(run.ModelPath)
 		if err != nil {
@@ -711,8 +747,10 @@ func (h *harness) walkCase(c Case) {
 				panicked = fmt.Sprint(p)
 			}
 		}()
+		h.begin(c)
 		r, parsed = runRule(c.Src, h.schema)
 		full = runWork(c, c.Src, h.schema)
+		h.end()
 	}()
 	run.Case(c.Src, r.Sels >= 5)
 	run.Count("walk")
